@@ -197,14 +197,18 @@ def run_columns_variants(args):
             ids_a, ids_b = pool[:cut], pool[cut:cut + rng.randint(1, 4)]
             size = rng.choice([None, None, 2, 3, 0.5])
 
-            def desc(fb, fa='A.x'):
+            def desc(fb, fa='A.x', shard=size):
                 a = {'k': 'source', 'cls': 'A', 'ids': ids_a, 'fields': {'x': {'args': ['i'], 'f': fa}}, 'params': {}, 'cargs': {}, 'defaults': {}}
                 bb = {'k': 'source', 'cls': 'B' + fb, 'ids': ids_b, 'fields': {'x': {'args': ['i'], 'f': fb}}, 'params': {}, 'cargs': {}, 'defaults': {}}
                 return {'k': 'chain', 'flavour': 'chain', 'layers': [{'k': 'merge', 'parts': [a, bb]},
-                                                                     {'k': 'columns', 'names': ['x'], 'root': 0, 'shard': size}]}
+                                                                     {'k': 'columns', 'names': ['x'], 'root': 0, 'shard': shard}]}
             variants = [desc('B.x'), desc('B.x#v2')]
             if rng.random() < 0.5:
                 variants.append(desc('B.x', 'A.x#v2'))
+            # the same pipeline rebuilt on the same storage with other shard sizes (also sizes giving the same number of shards)
+            for other in rng.sample([None, 2, 3, 4, 5, 0.5, 0.34], rng.randint(1, 3)):
+                if other != size:
+                    variants.append(desc('B.x', shard=other))
             world = SymWorld()
             stats['variant_cases'] += 1
             order = list(range(len(variants))) * 2
@@ -214,7 +218,7 @@ def run_columns_variants(args):
                 try:
                     p = Builder(world, roots=[root]).layer(d)
                     r = rel.ref({'k': 'merge', 'parts': d['layers'][0]['parts']})
-                    for key in rng.sample(ids_a + ids_b, min(3, len(ids_a + ids_b))):
+                    for key in rng.sample(ids_a + ids_b, min(4, len(ids_a + ids_b))):
                         got = canon(val_to_json(p.x(key), world))
                         want = canon(val_to_json(r.value('x', key)))
                         stats['calls'] += 1
@@ -226,4 +230,46 @@ def run_columns_variants(args):
                     problems.append({'variants': variants, 'msg': 'raised ' + type(e).__name__ + ': ' + str(e)[:200]})
     finally:
         shutil.rmtree(scratch, ignore_errors=True)
+    return stats, problems
+
+
+def run_shared_ram(args):
+    """C08 (with C09): ONE CacheToRam(size=k) layer object composed into two pipelines over different datasets: each pipeline
+    has its own bounded cache per field - after pipeline `a` returned through it for k keys, calls of pipeline `b` (any keys)
+    do not evict them: repeating a's k most recently used keys executes nothing upstream of a's cache"""
+    seed, n = args
+    from .pipeline import Builder
+    from .sym import SymWorld
+    problems, stats = [], {'shared_ram_cases': 0, 'calls': 0}
+    for c in range(n):
+        rng = random.Random(seed * 7507 + c)
+        k = rng.choice([1, 2, 3])
+        ids = [f'i{j}' for j in range(6)]
+        world = SymWorld()
+        b = Builder(world)
+        b.object_pool = {}
+
+        def pipe(tag):
+            src = {'k': 'source', 'cls': 'R' + tag, 'ids': ids, 'fields': {'x': {'args': ['i'], 'f': f'R{tag}.x'}}, 'params': {}, 'cargs': {}, 'defaults': {}}
+            t = {'k': 'transform', 'cls': 'RT', 'fields': {'y': {'args': ['x']}}, 'params': {}, 'cargs': {}, 'defaults': {}, 'inherit': True}
+            return b.layer({'k': 'chain', 'flavour': 'chain', 'layers': [src, t, {'k': 'ram', 'names': ['y'] if rng.random() < 0.5 else None, 'size': k}]})
+        try:
+            pa, pb = pipe('a'), pipe('b')
+            fa, fb = pa._compile('y'), pb._compile('y')
+            mine = rng.sample(ids, k)
+            for i in mine:
+                fa(i)
+            for i in rng.sample(ids, rng.randint(1, len(ids))):
+                fb(i)
+            mark = world.mark()
+            for i in mine:
+                fa(i)
+                stats['calls'] += 1
+            again = [c_[0] for c_ in world.since(mark)]
+            stats['shared_ram_cases'] += 1
+            if again:
+                problems.append({'size': k, 'keys': mine, 'msg': f'one CacheToRam(size={k}) object in two pipelines: after pipeline a returned {mine} and '
+                                 f'pipeline b was used, repeating a\'s {k} most recently used keys executed {sorted(set(again))} upstream of the cache'})
+        except Exception as e:
+            problems.append({'msg': 'shared RAM layer scenario raised ' + type(e).__name__ + ': ' + str(e)[:150]})
     return stats, problems
